@@ -43,6 +43,9 @@ def value_text(rng):
 	if rng.random() < 0.04:
 		# text that looks like an RFC 2047 encoded word: literal text inside a parameter value
 		return rng.choice(ENCODED_WORD_LOOKALIKES)
+	if rng.random() < 0.03:
+		# a literal percent sign followed by hex digits: data, in a plain value and in a value that travels as an extended parameter
+		return rng.choice([u'\u20ac 5%25 off', u'Rabatt 20%ab M\u00e4rz.pdf', u'100%41', u'%e9t\u00e9', u'50%2525', u'a%2Fb', u'%C3%A9 \u00e9'])
 	out = []
 	for _ in range(n):
 		if mode == 0:
@@ -332,6 +335,17 @@ def oracle(case):
 		fold3 = lambda l: [(v, sorted((k.lower(), x) for k, x in ps)) for v, ps in l]
 		if fold3(got3) != fold3(exp):
 			return {'what': 'the list built with append_element() reads back as %r, built from %r' % (got3[:4], exp[:4]), 'wire': repr(dict.__getitem__(h3, 'X-Foo'))[:300], 'finding': None}
+	# an element composed once, then changed through its parameter mapping, composes the new parameters
+	if not fid and kind == 'generic' and objs:
+		try:
+			o0 = make(els[0])
+			first0 = bytes(o0)
+			o0.params['zz-late'] = 'added-later'
+			second0 = bytes(o0)
+			if b'zz-late' not in second0.lower() or second0 == first0:
+				return {'what': 'an element composed once and then given a parameter composes %r (before: %r)' % (second0[:200], first0[:200]), 'finding': None}
+		except Exception as e:
+			return {'what': 'composing an element twice raised %s: %s' % (exc_name(e), e), 'finding': None}
 	# the same through a header collection, twice: what a caller does to the elements it was handed does not show in a later reading
 	if not fid:
 		from httoop import Headers
